@@ -487,6 +487,10 @@ func (c *Compiler) isFeatureValid(m parse.Node, n parse.Node, featTree map[strin
 		return false
 	}
 	featTree[featName] = true
+	// Only the features on the current chain count: a feature reached twice
+	// through different if-features (f1 needs f2 and f3, both need f4) is
+	// not a cycle.
+	defer delete(featTree, featName)
 
 	// Verify each feature that this feature references via an if-feature
 	for _, ifFeat := range n.ChildrenByType(parse.NodeIfFeature) {
